@@ -1,6 +1,339 @@
 import SdnsVerif.Spec.Zone
 import SdnsVerif.Model.Nsec
+/-
+Executable model of the NSEC3 side of /repo/middleware/resolver/dnssec/nsec3.go
+(prepareNSEC3Set, nsec3RingEvaluator.lookup, the closest-encloser walk,
+VerifyNameErrorForZoneWithWork, VerifyNODATAForZoneWithWork,
+VerifyDelegationForZoneWithWork) and aggressive_negative.go
+(EvaluateAggressiveNSEC3).  Core Lean only.
+
+The hash is a PARAMETER `H : Name → Option Hash` (`none` models the
+evaluator refusing to hash a name outside the ring's zone is handled
+separately; the driver fills `H` from the table the Go harness computed with
+the implementation's own hashing).  base32hex / hex decoding of the owner
+label, NextDomain and Salt fields is done by the harness: a field that does
+not decode arrives as `none`.
+-/
 namespace SdnsVerif.Model.Nsec3
+open SdnsVerif.Spec.Zone SdnsVerif.Model.Nsec
+
+abbrev Hash := List Nat
+
+/-- one NSEC3 record as the validators see it. -/
+structure Nsec3 where
+  owner : Name                 -- canonical owner name, root side first (last element = the hash label)
+  ownerHash : Option Hash      -- the first (leaf) label base32hex-decoded; `none` if it is not a 32-character base32hex label
+  next : Option Hash           -- NextDomain decoded; `none` if malformed
+  hashLen : Nat                -- the HashLength field
+  alg : Nat
+  flags : Nat
+  iter : Nat
+  salt : Option (List Nat)     -- `none`: Salt is not hex or disagrees with SaltLength
+  cls : Nat
+  types : List Nat
+deriving Repr, DecidableEq
+
+/-- `maxNSEC3Iterations`. -/
+def maxIterations : Nat := 150
+
+/-- `nsec3Safe` / `AggressiveNSEC3Usable`. -/
+def usable (r : Nsec3) : Bool := r.alg == 1 && r.iter ≤ maxIterations && (r.flags == 0 || r.flags == 1)
+
+def insertNat (x : Nat) : List Nat → List Nat
+  | [] => [x]
+  | y :: t => if x ≤ y then x :: y :: t else y :: insertNat x t
+def sortNat : List Nat → List Nat
+  | [] => []
+  | x :: t => insertNat x (sortNat t)
+
+/-- `nsec3IdentityKey` equality (owner, class, algorithm, flags, iterations,
+salt, next, sorted types). -/
+def sameIdentity (a b : Nsec3) : Bool :=
+  a.owner == b.owner && a.cls == b.cls && a.alg == b.alg && a.flags == b.flags && a.iter == b.iter &&
+  a.salt == b.salt && a.next == b.next && sortNat a.types == sortNat b.types
+
+/-- `normalizeNSEC3Set`: semantic duplicates removed (first kept). -/
+def dedupe : List Nsec3 → List Nsec3 → List Nsec3
+  | acc, [] => acc.reverse
+  | acc, r :: t => if acc.any (sameIdentity r) then dedupe acc t else dedupe (r :: acc) t
+
+structure Entry3 where
+  idx : Nat
+  ownerHash : Hash
+  nextHash : Hash
+  flags : Nat
+  types : List Nat
+deriving Repr, DecidableEq
+
+structure Ring where
+  zone : Name
+  cls : Nat
+  entries : List Entry3
+deriving Repr
+
+/-- per-record admissibility of `prepareNSEC3Set` (every failure is
+`ErrNSECMissingCoverage`): class set, owner exactly one label below the
+signer, hash label / NextDomain / salt decodable, hash length consistent. -/
+def recordOk (zone : Name) (r : Nsec3) : Bool :=
+  r.cls != 0 && r.owner.length == zone.length + 1 && zone.isPrefixOf r.owner &&
+  (match r.ownerHash with | some h => r.hashLen == h.length | none => false) &&
+  r.next.isSome && r.salt.isSome
+
+def sameParams (a b : Nsec3) : Bool := a.alg == b.alg && a.iter == b.iter && a.salt == b.salt
+
+def hashesDistinct : List Hash → Bool
+  | [] => true
+  | h :: t => !t.contains h && hashesDistinct t
+
+def insertE (x : Entry3) : List Entry3 → List Entry3
+  | [] => [x]
+  | y :: t => if cmpLabel x.ownerHash y.ownerHash = .gt then y :: insertE x t else x :: y :: t
+def sortE : List Entry3 → List Entry3
+  | [] => []
+  | x :: t => insertE x (sortE t)
+
+def indexed3 (i : Nat) : List Nsec3 → List (Nat × Nsec3)
+  | [] => []
+  | r :: t => (i, r) :: indexed3 (i + 1) t
+
+def toEntry (p : Nat × Nsec3) : Entry3 :=
+  { idx := p.1, ownerHash := p.2.ownerHash.getD [], nextHash := p.2.next.getD [], flags := p.2.flags, types := p.2.types }
+
+/-- `prepareNSEC3Set` with a signer: unusable records are skipped, then one
+class, one parameter tuple, owners bound to the signer, no two records at
+one owner hash; the ring is sorted by owner hash. -/
+def prepare (records : List Nsec3) (zone : Name) : Except Err Ring :=
+  let us := dedupe [] (records.filter usable)
+  match us with
+  | [] => .error .missing
+  | f :: _ =>
+    if us.any (fun r => !recordOk zone r) then .error .missing
+    else if us.any (fun r => r.cls != f.cls || !sameParams r f) then .error .missing
+    else if !hashesDistinct (us.map fun r => r.ownerHash.getD []) then .error .missing
+    else .ok { zone := zone, cls := f.cls, entries := sortE (us.map fun r => toEntry (0, r)) }
+
+/-- `aggressiveNSEC3Covers` (strict interval of the hash circle). -/
+def covers3 (owner next h : Hash) : Bool :=
+  let on := cmpLabel owner next
+  let ho := cmpLabel h owner
+  let hn := cmpLabel h next
+  if on = .eq then ho != .eq
+  else if on = .lt then ho = .gt && hn = .lt
+  else ho = .gt || hn = .lt
+
+/-- `nsec3RingEvaluator.lookup` on a hash value: the unique match, the unique
+strict cover; two covers, or a match that is also covered, is an error. -/
+def lookupHash (entries : List Entry3) (v : Hash) : Except Err (Option Entry3 × Option Entry3) :=
+  let m := entries.find? fun e => e.ownerHash == v
+  let cs := entries.filter fun e => e.ownerHash != v && covers3 e.ownerHash e.nextHash v
+  match cs with
+  | [] => .ok (m, none)
+  | [c] => if m.isSome then .error .missing else .ok (none, some c)
+  | _ => .error .missing
+
+/-- the hash oracle: `none` = the harness supplied no hash for that name. -/
+abbrev HashFn := Name → Option Hash
+
+/-- `evaluator.lookup(name)`: names outside the ring's zone are refused. -/
+def lookup (H : HashFn) (ring : Ring) (name : Name) : Except Err (Option Entry3 × Option Entry3) :=
+  if !ring.zone.isPrefixOf name then .error .missing else
+  match H name with
+  | none => .error .missing
+  | some v => lookupHash ring.entries v
+
+/-- `findMatchingWithWork`. -/
+def findMatching (H : HashFn) (ring : Ring) (name : Name) : Except Err Entry3 :=
+  match lookup H ring name with
+  | .ok (some m, _) => .ok m
+  | .ok (none, _) => .error .missing
+  | .error e => .error e
+
+/-- `findCovererWithWork`. -/
+def findCoverer (H : HashFn) (ring : Ring) (name : Name) : Except Err Entry3 :=
+  match lookup H ring name with
+  | .ok (_, some c) => .ok c
+  | .ok (_, none) => .error .missing
+  | .error e => .error e
+
+/-- `findClosestEncloserWithWork`: candidates are `name` itself and then each
+proper ancestor with at least one label; a candidate whose lookup fails is
+skipped.  Result: closest encloser length `k`, its matching entry (the next
+closer name is `name.take (k+1)`, or `name` itself when `k = name.length`). -/
+def walk (H : HashFn) (ring : Ring) (name : Name) : Nat → Option (Nat × Entry3)
+  | 0 => none
+  | k + 1 =>
+    match findMatching H ring (name.take (k + 1)) with
+    | .ok m => some (k + 1, m)
+    | .error _ => walk H ring name k
+
+def closestEncloser (H : HashFn) (ring : Ring) (name : Name) : Option (Nat × Entry3) :=
+  walk H ring name name.length
+
+def nextCloser (name : Name) (k : Nat) : Name := if k ≥ name.length then name else name.take (k + 1)
+
+/-- `validateNSEC3ClosestEncloser`. -/
+def validateCE (ce : Option (Nat × Entry3)) : Except Err (Nat × Entry3) :=
+  match ce with
+  | none => .error .missing
+  | some (k, m) =>
+    if typesSet m.types [tDNAME] || (typesSet m.types [tNS] && !typesSet m.types [tSOA]) then .error .badDelegation
+    else .ok (k, m)
+
+/-- `VerifyNameErrorForZoneWithWork`: `ok secure`. -/
+def verifyNameError (H : HashFn) (records : List Nsec3) (signer : Name) (q : Name) (qclass : Nat) :
+    Except Err Bool :=
+  match prepare records signer with
+  | .error e => .error e
+  | .ok ring =>
+    if ring.cls != qclass then .error .missing else
+    match validateCE (closestEncloser H ring q) with
+    | .error e => .error e
+    | .ok (k, m) =>
+      match findCoverer H ring (nextCloser q k) with
+      | .error e => .error e
+      | .ok nc =>
+        match findCoverer H ring (q.take k ++ [star]) with
+        | .error e => .error e
+        | .ok _ => .ok (nc.flags % 2 == 0)
+
+/-- `VerifyNODATAForZoneWithWork`. -/
+def verifyNODATA (H : HashFn) (records : List Nsec3) (signer : Name) (q : Name) (t qclass : Nat) :
+    Except Err Bool :=
+  match prepare records signer with
+  | .error e => .error e
+  | .ok ring =>
+    if ring.cls != qclass then .error .missing else
+    match findMatching H ring q with
+    | .ok m =>
+      if typesSet m.types [t, tCNAME] then .error .typeExists
+      else if t == tDS && typesSet m.types [tSOA] then .error .badDelegation
+      else .ok true
+    | .error _ =>
+      match validateCE (closestEncloser H ring q) with
+      | .error e => .error e
+      | .ok (k, _) =>
+        match findCoverer H ring (nextCloser q k) with
+        | .error e => .error e
+        | .ok nc =>
+          let optOut := nc.flags % 2 == 1
+          if t == tDS then (if optOut then .ok false else .error .optOut)
+          else
+            match findMatching H ring (q.take k ++ [star]) with
+            | .error e => .error e
+            | .ok w =>
+              if typesSet w.types [t, tCNAME] then .error .typeExists else .ok (!optOut)
+
+/-- `VerifyDelegationForZoneWithWork`. -/
+def verifyDelegation (H : HashFn) (records : List Nsec3) (signer : Name) (d : Name) : Except Err Unit :=
+  match prepare records signer with
+  | .error e => .error e
+  | .ok ring =>
+    match findMatching H ring d with
+    | .ok m =>
+      if !typesSet m.types [tNS] then .error .nsMissing
+      else if typesSet m.types [tDS, tSOA] then .error .badDelegation
+      else .ok ()
+    | .error _ =>
+      match validateCE (closestEncloser H ring d) with
+      | .error e => .error e
+      | .ok (k, _) =>
+        match findCoverer H ring (nextCloser d k) with
+        | .error e => .error e
+        | .ok nc => if nc.flags % 2 == 1 then .ok () else .error .optOut
+
+/-! ### EvaluateAggressiveNSEC3 -/
+
+/-- `newAggressiveNSEC3Entries`: every record must be usable, of the question's
+class, carry the first record's parameters, sit one label below the signer;
+a repeated owner hash must be an exact repeat (next, flags, bitmap as a set). -/
+def addEntry3 (qclass : Nat) (zone : Name) (first : Nsec3) (acc : List Entry3) (p : Nat × Nsec3) :
+    Except Err (List Entry3) :=
+  let r := p.2
+  if !usable r || r.cls != qclass then .error .missing
+  else if !r.salt.isSome then .error .missing
+  else if !sameParams r first then .error .missing
+  else if !(r.owner.length == zone.length + 1 && zone.isPrefixOf r.owner) then .error .missing
+  else match r.ownerHash, r.next with
+    | some oh, some nh =>
+      if r.hashLen != oh.length then .error .missing else
+      match acc.find? fun e => e.ownerHash == oh with
+      | some e =>
+        if e.nextHash != nh || e.flags != r.flags || !bitmapsEqual e.types r.types then .error .missing
+        else .ok acc
+      | none => .ok (acc ++ [{ idx := p.1, ownerHash := oh, nextHash := nh, flags := r.flags, types := r.types }])
+    | _, _ => .error .missing
+
+def addEntries3 (qclass : Nat) (zone : Name) (first : Nsec3) : List Entry3 → List (Nat × Nsec3) → Except Err (List Entry3)
+  | acc, [] => .ok acc
+  | acc, p :: t => match addEntry3 qclass zone first acc p with
+    | .error e => .error e
+    | .ok acc' => addEntries3 qclass zone first acc' t
+
+def newEntries3 (records : List Nsec3) (qclass : Nat) (zone : Name) : Except Err (List Entry3) :=
+  match records with
+  | [] => .error .missing
+  | f :: _ => addEntries3 qclass zone f [] (indexed3 0 records)
+
+/-- `lookupAggressiveNSEC3` (same rules as the ring lookup, unsorted). -/
+def lookupAgg (H : HashFn) (entries : List Entry3) (name : Name) : Except Err (Option Entry3 × Option Entry3) :=
+  match H name with
+  | none => .error .missing
+  | some v => lookupHash entries v
+
+/-- `findAggressiveNSEC3ClosestEncloser`: from `q`'s parent down to the
+signer; a failing lookup aborts (unlike the exact validator's walk). -/
+def walkAgg (H : HashFn) (entries : List Entry3) (q : Name) (zoneLen : Nat) : Nat → Except Err (Nat × Entry3)
+  | 0 => .error .missing
+  | k + 1 =>
+    if k < zoneLen then .error .missing else
+    match lookupAgg H entries (q.take k) with
+    | .error e => .error e
+    | .ok (some m, _) => .ok (k, m)
+    | .ok (none, _) => walkAgg H entries q zoneLen k
+
+def proof3 (l : List Entry3) : List Nat := (l.map (·.idx)).eraseDups
+
+/-- `EvaluateAggressiveNSEC3`. -/
+def evaluateAggressiveNSEC3 (H : HashFn) (q : Name) (t qclass : Nat) (signer : Name) (records : List Nsec3) :
+    Except Err (Rcode × List Nat) :=
+  if !validQuestion q t qclass signer then .error .missing else
+  match newEntries3 records qclass signer with
+  | .error e => .error e
+  | .ok es =>
+    match lookupAgg H es q with
+    | .error e => .error e
+    | .ok (some m, _) =>
+      if !aggressiveNODATAType t then .error .missing
+      else match validateAggressiveExactNODATA t m.types with
+        | .error e => .error e
+        | .ok _ => .ok (.nodata, [m.idx])
+    | .ok (none, _) =>
+      if q == signer then .error .missing else
+      match walkAgg H es q signer.length q.length with
+      | .error e => .error e
+      | .ok (k, ce) =>
+        if typesSet ce.types [tDNAME] || (typesSet ce.types [tNS] && !typesSet ce.types [tSOA]) then .error .badDelegation
+        else match lookupAgg H es (q.take (k + 1)) with
+          | .error e => .error e
+          | .ok (some _, _) => .error .missing
+          | .ok (none, none) => .error .missing
+          | .ok (none, some nc) =>
+            if nc.flags % 2 == 1 then .error .optOut else
+            match lookupAgg H es (q.take k ++ [star]) with
+            | .error e => .error e
+            | .ok (some w, _) =>
+              if !aggressiveNODATAType t || t == tDS then .error .missing
+              else if aggressiveDelegationBitmap w.types || typesSet w.types [tDNAME] then .error .badDelegation
+              else match validateAggressiveExactNODATA t w.types with
+                | .error e => .error e
+                | .ok _ => .ok (.nodata, proof3 [ce, nc, w])
+            | .ok (none, none) => .error .missing
+            | .ok (none, some wc) =>
+              if wc.flags % 2 == 1 then .error .optOut
+              else .ok (.nxdomain, proof3 [ce, nc, wc])
+
+/-- line-protocol state of the `h` ops (kept here so the driver stays small). -/
 structure HState where
-  dummy : Nat := 0
+  set : List Nsec3 := []
+
 end SdnsVerif.Model.Nsec3
